@@ -209,8 +209,20 @@ fn prop_encfault(name: &str, flush: &str, evs: &[&str]) -> String {
     let evs = parse_wsched(evs);
     let flush = parse_flush(flush);
     let mut w = SchedWriter::new(evs.clone(), flush);
-    let res = map.clone().encode(&mut w);
+    let mut used = map.clone();
+    let res = used.encode(&mut w);
     let obs = fmt_w(&res, &w);
+    // a fault is never turned into a partial result LATER either: the map a failed (or successful) encode was called on still
+    // encodes to the same text (`encode` takes `&mut self`; seed C09-n: objects moved out of the map and lost on an early return)
+    {
+        let mut again = Vec::new();
+        match used.encode(&mut again) {
+            Ok(()) if again == reference => {}
+            Ok(()) => return format!("FAIL the map encodes differently after an encode that returned {}: {} bytes instead of {}",
+                if res.is_ok() { "Ok" } else { "an error" }, again.len(), reference.len()),
+            Err(e) => return format!("FAIL the map no longer encodes into a Vec after an earlier encode: {}", kind_tag(e.kind())),
+        }
+    }
 
     // 1. the real encoder behaves as "its write_all calls, then flush" on the same writer
     let mut w2 = SchedWriter::new(evs.clone(), flush);
